@@ -40,8 +40,14 @@ func instanceToProviderID(instance *autoscaling.Instance) string {
 	return fmt.Sprintf("aws:///%s/%s", *instance.AvailabilityZone, *instance.InstanceId)
 }
 
+// providerIDToInstanceID extracts the instance ID from a provider ID of the form
+// aws:///<availability-zone>/<instance-id>. Returns an empty string if it is malformed.
 func providerIDToInstanceID(providerID string) string {
-	return strings.Split(providerID, "/")[4]
+	parts := strings.Split(providerID, "/")
+	if len(parts) < 5 {
+		return ""
+	}
+	return parts[4]
 }
 
 // CloudProvider providers an aws cloud provider implementation
@@ -137,6 +143,9 @@ func (c *CloudProvider) GetInstance(node *v1.Node) (cloudprovider.Instance, erro
 	var instance *Instance
 
 	id := providerIDToInstanceID(node.Spec.ProviderID)
+	if id == "" {
+		return instance, fmt.Errorf("unable to determine instance id from provider id %q of node %v", node.Spec.ProviderID, node.Name)
+	}
 
 	input := &ec2.DescribeInstancesInput{
 		InstanceIds: []*string{&id},
